@@ -103,6 +103,7 @@ func c02Calls(name string, thorough bool, emit func(c02Call)) {
 				args = []string{"&@", "`[1]`", "`[1]`"}[:n]
 			}
 			emit(c02Call{Expr: name + "(" + strings.Join(args, ", ") + ")", Doc: "null", Shape: fmt.Sprintf("%s/arity/%d", name, n)})
+			emit(c02Call{Expr: "let $q = " + name + "(" + strings.Join(args, ", ") + ") in $q", Doc: "null", Shape: fmt.Sprintf("%s/arity-in-binding/%d", name, n)})
 		}
 		return
 	}
@@ -123,6 +124,14 @@ func c02Calls(name string, thorough bool, emit func(c02Call)) {
 			emit(c02Call{Expr: name + "(" + strings.Join(lits, ", ") + ")", Doc: "null", Shape: shape})
 			if n > 0 {
 				emit(c02Call{Expr: name + "(" + strings.Join(fields, ", ") + ")", Doc: "{" + strings.Join(docParts, ",") + "}", Shape: shape})
+			}
+			if n == 1 || n == 2 {
+				// the same call node evaluated three times in one search, its last argument varying (literal arguments are
+				// shared by the evaluations)
+				last := vals[n-1]
+				other := alpha[(len(last)+len(name)+n)%len(alpha)]
+				args := append(append([]string{}, lits[:n-1]...), "@")
+				emit(c02Call{Expr: "map(&" + name + "(" + strings.Join(args, ", ") + "), `[" + last + "," + other + "," + last + "]`)", Doc: "null", Shape: shape + "/via-map"})
 			}
 			return
 		}
@@ -146,6 +155,7 @@ func c02Calls(name string, thorough bool, emit func(c02Call)) {
 					lits[i] = "`" + x + "`"
 				}
 				emit(c02Call{Expr: name + "(" + strings.Join(lits, ", ") + ")", Doc: "null", Shape: fmt.Sprintf("%s/arity/%d", name, n)})
+				emit(c02Call{Expr: "[let $q = " + name + "(" + strings.Join(lits, ", ") + ") in $q, {k: " + name + "(" + strings.Join(lits, ", ") + ")}]", Doc: "null", Shape: fmt.Sprintf("%s/arity-in-binding/%d", name, n)})
 			}
 			continue
 		}
@@ -153,6 +163,18 @@ func c02Calls(name string, thorough bool, emit func(c02Call)) {
 	}
 	// an expression reference where a value is wanted
 	emit(c02Call{Expr: name + "(&@)", Doc: "null", Shape: name + "/expref-in-value-position"})
+	if name == "merge" {
+		// a literal object shared by several evaluations of one call
+		for _, e := range []string{"map(&merge(`{}`, @), `[{\"a\":1},{\"b\":2},{\"c\":3}]`)", "map(&merge(`{\"z\":0}`, @, `{\"y\":1}`), `[{\"a\":1},{\"z\":2},{}]`)", "[{\"a\":1},{\"b\":2}][*].merge(`{\"k\":0}`, @)",
+			"map(&merge(@, `{\"z\":0}`), `[{\"a\":1},{\"z\":2}]`)", "[merge(`{}`, {a: `1`}), merge(`{}`, {b: `2`})]"} {
+			emit(c02Call{Expr: e, Doc: "null", Shape: "merge/literal-shared"})
+		}
+	}
+	if name == "sort" || name == "reverse" || name == "sort_by" {
+		for _, e := range []string{"map(&" + name + "(`[3,1,2]`, &@)[@], `[0,1,2]`)", "map(&" + name + "(`[3,1,2]`)[@], `[0,1,2]`)", "map(&" + name + "(`[\"b\",\"a\"]`)[0], `[0,1]`)"} {
+			emit(c02Call{Expr: e, Doc: "null", Shape: name + "/literal-shared"})
+		}
+	}
 }
 
 func init() {
